@@ -183,6 +183,25 @@ def grouped_serialization(run, tier, seed):
                 cases.append((key, rp, frames, groups, integ))
                 traces.append({"id": len(cases) - 1, "rows": terms.jrows_of_frames(frames), "mode": ("seq" if integ == "generic" else "set"),
                                "exp": [terms.jitem(s_) for g_ in groups for s_ in g_]})
+    # an rdflib Dataset handed to a TripleStream with a GRAPHS logical type: its graphs are the input graphs, one frame each
+    for lt in (3, 13):
+        for sizes in ((2, 1, 1), (1, 4), (3,)):
+            quads = []
+            for gi, n_ in enumerate(sizes):
+                g_ = ("dg",) if gi == len(sizes) - 1 and len(sizes) > 1 else I(f"http://g/{gi}")
+                quads += [(I(f"http://e/s{gi}-{j}"), I("http://e/p"), I(f"http://e/o{j}"), g_) for j in range(n_)]
+            cfg = impl.default_cfg(integ="rdflib", entry="stream_frames", sclass="triple", ltype=lt, gen=False, star=False, as_sink=True, dataset=True)
+            key = {"part": "grouped-serialization", "integ": "rdflib", "universe": "dataset-through-triple-stream", "ltype": lt}
+            rp = {"cfg": cfg, "graph_sizes": list(sizes)}
+            n += 1
+            data = _safe(impl.serialize, cfg, quads)
+            if isinstance(data, str):
+                run.violation({"clause": "serializer-raised", **key}, data, rp)
+                continue
+            counts = sorted(c_ for c_ in producer.denoting_per_frame(wire.dec_delimited(data)) if c_)
+            if counts != sorted(sizes):
+                run.violation({"clause": "frames-vs-sinks", "leading_empty_sink_gets_options_only_frame": False, **key},
+                              f"a Dataset with graphs of {sorted(sizes)} triples written as frames holding {counts} statements", rp)
     verdicts = tlc.judge(traces)
     verdicts.pop("__stats__")
     for i, (key, rp, frames, nonempty, integ) in enumerate(cases):
